@@ -454,22 +454,39 @@ Theorem Glue_request_check_sig_is_check_signature_runs :
         let i := RQ.root_id (RQ.d_tree d) in
         if pre && negb (RQ.enveloped_ok (RQ.d_tree d) nm i) then Err (s2l "SignatureError") else
         let f := Xmlsec.tool_verify (RQ.c_dupfail c) (RQ.d_tree d) nm (RQ.node_id_arg i) in
-        check_signature_runs false (map (fun k => run_of (f k)) certs)
-                             (if fixd then false else ovc) (last_tried_valid c (find f certs) certs)
+        (if fixd then check_signature_runs else check_signature_runs_before_fix)
+          false (map (fun k => run_of (f k)) certs) ovc (last_tried_valid c (find f certs) certs)
     end.
 Proof. exact request_check_sig_is_check_signature_runs. Qed.
 Print Assumptions Glue_request_check_sig_is_check_signature_runs.
 
-(* Model/Sigver.v's only_valid_cert = true branch is the code BEFORE the F16 repair: not the library any more *)
-Theorem Glue_check_signature_runs_stale_branch_witness :
-  check_signature_runs false [run_of false] true true = Ok tt /\
+(* today's code state (fixd = true): Sigver.check_signature_runs itself, whatever only_valid_cert *)
+Theorem Glue_request_check_sig_now :
+  forall pre c d nm ovc,
+    RQ.check_sig pre true c d nm ovc =
+    match RQ.request_certs c d with
+    | Err e => Err e
+    | Ok certs =>
+        let i := RQ.root_id (RQ.d_tree d) in
+        if pre && negb (RQ.enveloped_ok (RQ.d_tree d) nm i) then Err (s2l "SignatureError") else
+        let f := Xmlsec.tool_verify (RQ.c_dupfail c) (RQ.d_tree d) nm (RQ.node_id_arg i) in
+        check_signature_runs false (map (fun k => run_of (f k)) certs) ovc (last_tried_valid c (find f certs) certs)
+    end.
+Proof. exact request_check_sig_now. Qed.
+Print Assumptions Glue_request_check_sig_now.
+
+(* HISTORY: the branch Model/Sigver.v's check_signature_runs had for only_valid_cert = true was the code BEFORE the F16
+   repair (now check_signature_runs_before_fix); today's model, the library and Request.v with fixd raise SignatureError *)
+Theorem Glue_check_signature_runs_before_fix_witness :
+  check_signature_runs_before_fix false [run_of false] true true = Ok tt /\
+  check_signature_runs false [run_of false] true true = Err (s2l "SignatureError") /\
   check_signature_runs false [run_of false] false true = Err (s2l "SignatureError") /\
   (forall c d nm, RQ.request_certs c d = Ok [7%N] -> RQ.cert_ok c 7 = true ->
       Xmlsec.tool_verify (RQ.c_dupfail c) (RQ.d_tree d) nm (RQ.node_id_arg (RQ.root_id (RQ.d_tree d))) 7 = false ->
       RQ.check_sig false true c d nm true = Err (s2l "SignatureError") /\
       RQ.check_sig false false c d nm true = Ok tt).
-Proof. exact check_signature_runs_only_valid_cert_branch_is_stale. Qed.
-Print Assumptions Glue_check_signature_runs_stale_branch_witness.
+Proof. exact check_signature_runs_before_fix_witness. Qed.
+Print Assumptions Glue_check_signature_runs_before_fix_witness.
 
 Theorem Glue_request_verify_same :
   forall c addrs d,
